@@ -340,7 +340,7 @@ package bbolt
 //@   ensures [underlock] err == nil && db.freelist != nil ==> calls("sync.(*Mutex).Unlock", db.metalock) == old(calls("sync.(*Mutex).Unlock", db.metalock)) + 1
 
 // begin preconditions shared by Begin / Update / View (the database is open and mapped, no lock is held by the caller)
-//@ pure func canbegin(db *DB) bool = !db.metalock.held && db.mmaplock.rcount >= 0 && (db.readOnly || !db.rwlock.held) && (db.opened && db.data != nil ==> db.meta0 != nil && db.meta1 != nil && (metavalid(db.meta0) || metavalid(db.meta1)) && dbmeta(db).txid < 18446744073709551615 && db.freelist != nil)
+//@ pure func canbegin(db *DB) bool = db != nil && !db.metalock.held && db.mmaplock.rcount >= 0 && (db.readOnly || !db.rwlock.held) && (db.opened && db.data != nil ==> db.meta0 != nil && db.meta1 != nil && (metavalid(db.meta0) || metavalid(db.meta1)) && dbmeta(db).txid < 18446744073709551615 && db.freelist != nil)
 
 //@ func (*DB).Begin
 //@   returns (t, err)
